@@ -332,9 +332,9 @@ func (s *subsetter) SubsetGsub(old *gtab.Info) *gtab.Info {
 			}
 		}
 
-		if len(tNew.Subtables) > 0 {
-			res.LookupList = append(res.LookupList, tNew)
-		}
+		// Lookups are referenced by index from the feature list, so every
+		// lookup (even an empty one) must keep its position.
+		res.LookupList = append(res.LookupList, tNew)
 	}
 
 	return &res
